@@ -47,8 +47,10 @@ PROPS = {
                          'hand model (coq/Model/Writer.v): numpy slicing clips, np.pad edge = clamp, buffer row a of plane set p = padded row p*bs0+a, zfpy.compress_numpy emits unit codes in C order (validated: harness O3 + byte-exact comparison of every array handed to the compressor)'],
                 assumptions=['FIFO order of the two queues (C16)', 'MinimalInlineReader.read_line(L) returns line L of the SEG-Y (pinned; validated by the reduced-I/O route cases)',
                              'VDS/ZGY routes: not executed in the quick tier (ZGY cannot run in this sandbox: np.round_)']),
-    'C02': dict(gen_targets=READER_TARGETS + ['Coords'], pins=READER_PINS + COORD_PINS, harness=['reads.py', 'coords.py', 'coordsx.py'],
+    'C02': dict(gen_targets=READER_TARGETS + ['Coords', 'Xarray'], pins=READER_PINS + COORD_PINS, harness=['reads.py', 'coords.py', 'coordsx.py', 'xarrayx.py'],
                 trusted=['positive denominators of the rate fraction assumed when comparing rationals',
+                         'tools/genx_xarray.py (fail-closed whole-body templates of the xarray backend array, its entry point and tools.cube)',
+                         'xarray (outside /repo): indexing.explicit_indexing_adapter(key, shape, IndexingSupport.BASIC, raw) and LazilyIndexedArray hand the raw method one int or slice per axis, apply only numpy indexing of their own to its result and never touch the file; validated by xarrayx.py against a trivially correct control backend on every run',
                          'tools/genx_coords.py (fail-closed whole-body templates of coord_to_index, gen_coord_list, the get_*_index / read_*_number / read_zslice_coord / get_trace_by_coord methods and the axes block of SgzReader.__init__)'],
                 assumptions=['codec values are abstract: results are provenance grids; bitwise equality follows for any unit-local codec',
                              'Props/C02d.v: coordinates are an abstract type with decidable equality (Z for line numbers); float64 rounding of the sample axis is outside the model and covered by the oracle in coords.py / coordsx.py'],
@@ -56,8 +58,8 @@ PROPS = {
     'C14': dict(gen_targets=READER_TARGETS + ['Coords'], pins=READER_PINS + COORD_PINS, harness=['reads.py', 'coords.py', 'coordsx.py'],
                 trusted=['tools/genx_coords.py (fail-closed whole-body templates of the by-number / by-coordinate entry points)'],
                 assumptions=['Props/C14b.v: an off-axis line number or coordinate is refused before any loader call, for every axis (abstract coordinates with decidable equality); float64 sample axes by the oracles coords.py / coordsx.py']),
-    'C07': dict(gen_targets=READER_TARGETS + ['OpenIO', 'Headers', 'Caches'], pins=READER_PINS + pins_of('C07'),
-                harness=['reads.py', 'iocost.py'],
+    'C07': dict(gen_targets=READER_TARGETS + ['OpenIO', 'Headers', 'Caches', 'Xarray'], pins=READER_PINS + pins_of('C07'),
+                harness=['reads.py', 'iocost.py', 'xarrayx.py'],
                 trusted=['tools/genx_openio.py (fail-closed extraction of the file accesses of opening, preload, the range-read choke point, gen_trace_header, the chunk key of get_trace and the diagonal loops, plus a census that no other statement of read.py / loader.py touches the file)',
                          'functools.lru_cache semantics (hit: no call; miss: call, insert, evict least recently used) as modelled in coq/Model/Caches.v'],
                 assumptions=['I/O traces of model and implementation are compared after coalescing adjacent ranges',
